@@ -135,27 +135,9 @@ impl CheckerContext {
 
     /// Gets vehicle shift where activity is used.
     fn get_vehicle_shift(&self, tour: &Tour) -> GenericResult<VehicleShift> {
-        let tour_time = TimeWindow::new(
-            parse_time(
-                &tour.stops.first().as_ref().ok_or_else(|| "cannot get first activity".to_string())?.schedule().arrival,
-            ),
-            parse_time(
-                &tour.stops.last().as_ref().ok_or_else(|| "cannot get last activity".to_string())?.schedule().arrival,
-            ),
-        );
-
-        self.get_vehicle(&tour.vehicle_id)?
-            .shifts
-            .iter()
-            .find(|shift| {
-                let shift_time = TimeWindow::new(
-                    parse_time(&shift.start.earliest),
-                    shift.end.as_ref().map_or_else(|| Float::MAX, |place| parse_time(&place.latest)),
-                );
-                shift_time.intersects(&tour_time)
-            })
-            .cloned()
-            .ok_or_else(|| format!("cannot find shift for tour with vehicle if: '{}'", tour.vehicle_id).into())
+        self.get_vehicle(&tour.vehicle_id)?.shifts.get(tour.shift_index).cloned().ok_or_else(|| {
+            format!("cannot find shift with index {} for tour with vehicle id: '{}'", tour.shift_index, tour.vehicle_id).into()
+        })
     }
 
     /// Returns stop's activity type names.
